@@ -235,8 +235,18 @@ func c11R1(r *Report) {
 			fc, ok := ex.Tuple.(*ssa.Call)
 			return ok && isCallNamed(fc, "peer", "fromChunk") && fc.Call.Args[1] == idx
 		}
+		// the piece of the dequeued block, as a value that can be followed into a helper (mayRequestPiece(peer, i))
+		var pieceVal ssa.Value
+		allInstrs(mr, func(in ssa.Instruction) {
+			if fc, ok := in.(*ssa.Call); ok && isCallNamed(fc, "peer", "fromChunk") && len(fc.Call.Args) > 1 && fc.Call.Args[1] == idx {
+				pieceVal = extractOf(fc, 0)
+			}
+		})
+		isPiece := func(sj []ssa.Value, v ssa.Value) bool {
+			return pieceOf(v) || (len(sj) > 0 && sj[0] != nil && stripIntConv(v) == sj[0])
+		}
 		reqs := []edgeReq{
-			{Name: "peer.bitmap.Get(piece) == true", Match: func(cond ssa.Value, pol bool) bool {
+			{Name: "peer.bitmap.Get(piece) == true", ViaHelper: true, Subj: []ssa.Value{pieceVal}, MatchS: func(sj []ssa.Value, cond ssa.Value, pol bool) bool {
 				c, ok := cond.(*ssa.Call)
 				if !ok || !pol {
 					return false
@@ -246,10 +256,10 @@ func c11R1(r *Report) {
 					return false
 				}
 				fv, _ := loadedField(c.Call.Args[0])
-				return fv == bmF && pieceOf(c.Call.Args[1])
+				return fv == bmF && isPiece(sj, c.Call.Args[1])
 			}},
-			{Name: "unchoked != 0 or isFast(piece)", Match: func(cond ssa.Value, pol bool) bool {
-				if c, ok := cond.(*ssa.Call); ok && isCallNamed(c, "peer", "isFast") && pol && pieceOf(c.Call.Args[1]) {
+			{Name: "unchoked != 0 or isFast(piece)", ViaHelper: true, Subj: []ssa.Value{pieceVal}, MatchS: func(sj []ssa.Value, cond ssa.Value, pol bool) bool {
+				if c, ok := cond.(*ssa.Call); ok && isCallNamed(c, "peer", "isFast") && pol && isPiece(sj, c.Call.Args[1]) {
 					return true
 				}
 				bo, ok := cond.(*ssa.BinOp)
